@@ -11,9 +11,10 @@
 (* Every PropsWorld clause is checked on every transition, the registry    *)
 (* invariants in every state.                                              *)
 (***************************************************************************)
-EXTENDS Machine, NumInt
+EXTENDS Machine, NumInt, Json
 
-CONSTANTS MAXSTEPS, COMMISSION
+CONSTANTS MAXSTEPS, COMMISSION,
+          EXPORT         \* TRUE (simulation mode only): print each completed behaviour for replay into the code
 
 FAC == "fac"
 RTR == "rtr"
@@ -35,8 +36,8 @@ InitWorld ==
       nextc |-> 9,
       light |-> FALSE ]
 
-VARIABLES w, last, steps
-vars == <<w, last, steps>>
+VARIABLES w, last, steps, hist      \* hist: the operations so far (only read when behaviours are exported)
+vars == <<w, last, steps, hist>>
 View == <<w, steps>>
 NoEv == [op |-> [op |-> "none", caller |-> "none"], res |-> [ok |-> FALSE, why |-> "", events |-> <<>>]]
 
@@ -98,14 +99,37 @@ NativeOps == {[op |-> "fac_add_native", caller |-> "own", denom |-> "ua", decima
 
 Ops == CreateOps \cup AllowOps \cup ProvideOps \cup WithdrawOps \cup SwapOps \cup RouteOpsSet \cup NativeOps
 
-Init == w = InitWorld /\ last = NoEv /\ steps = 0
-Next ==
+Init == w = InitWorld /\ last = NoEv /\ steps = 0 /\ hist = <<>>
+
+\* export (simulation) mode: the next operation is drawn class-first (a uniform draw over Ops is dominated by the
+\* route and swap variants) and only that one successor is generated; a few more shapes than the exhaustive scope
+\* affords (a named recipient, a zero spread limit, a second decimals value) ride along
+ExportExtraOps ==
+    UNION {
+      {[op |-> "pair_swap", pair |-> p, caller |-> "trader", offer |-> [info |-> x, amount |-> a],
+        bp |-> None, ms |-> m, to |-> Some("lp1"), funds |-> <<<<x.id, a>>>>] :
+          x \in {y \in {w.pair[p].a0, w.pair[p].a1} : y.native}, a \in {1, 3}, m \in {Some(0), Some(5)}} :
+      p \in Pairs(w) }
+    \cup {[op |-> "fac_add_native", caller |-> c, denom |-> d, decimals |-> v] : c \in {"own", "trader"}, d \in {"ua", "ub"}, v \in {0, 1, 3}}
+OpClasses == <<CreateOps, AllowOps, ProvideOps, WithdrawOps, SwapOps, RouteOpsSet, NativeOps, ExportExtraOps, ProvideOps, SwapOps \cup RouteOpsSet>>
+DrawOp ==
+    LET ne == {i \in DOMAIN OpClasses : OpClasses[i] # {}} IN
+    RandomElement(OpClasses[RandomElement(ne)])
+
+Step ==
     /\ steps < MAXSTEPS
-    /\ \E op \in Ops :
+    /\ \E op \in (IF EXPORT THEN {DrawOp} ELSE Ops) :
           LET r == Tx(w, op) IN
           /\ w' = r.w
           /\ last' = [op |-> op, res |-> r.res]
           /\ steps' = steps + 1
+          /\ hist' = Append(hist, op)
+Export ==
+    /\ EXPORT /\ steps = MAXSTEPS
+    /\ PrintT(<<"BEHAVIOUR", "SYS", ToJson(hist)>>)
+    /\ steps' = steps + 1
+    /\ UNCHANGED <<w, last, hist>>
+Next == Step \/ Export
 Spec == Init /\ [][Next]_vars
 
 StepOK(pre, ev, post) ==
